@@ -273,6 +273,19 @@ func (fx *fnExec) assignsCheck(st *state, a *addr, in ssa.Instruction, pos token
 	case aField:
 		arr, _ := fx.fieldArr(a.st, a.field)
 		arrs, idx = []string{arr}, a.ref
+		if n := namedOf(a.st); n != nil && n.Obj().Pkg() != nil && n.Obj().Parent() != n.Obj().Pkg().Scope() && !strings.HasPrefix(idx, "new!") {
+			// a struct type declared inside a function: its instances are that function's private
+			// working state (possibly shared with its closures); no contract of another function can
+			// speak about them, so a store through a captured instance is undecided, not a frame violation
+			before := len(fx.obls)
+			fx.assignsObl(arr, idx, in, pos)
+			for _, o := range fx.obls[before:] {
+				if len(fx.obls) > before {
+					o.NewField = true
+				}
+			}
+			return
+		}
 		if n := namedOf(a.st); n != nil && n.Obj().Pkg() != nil {
 			if old, ok := oldFields[n.Obj().Pkg().Path()+"."+n.Obj().Name()]; ok {
 				known := false
